@@ -433,7 +433,9 @@ class Ctx:
         self.concrete_report = []        # concrete mode: list of (name, viol, tol)
         self.trace = []
         self.scratch = {}
-        self.div_rules = {}              # (den var, quotient var) -> (numerator Poly, coefficient of den var)
+        self.div_rules = {}
+        self.div_defs = {}               # quotient var -> (numerator Poly, denominator Poly)
+        self.post_rules = {}             # rewrite rules applied only to cleared goals (e.g. T^2 -> Gram determinant)
 
     # ---------------------------------------------------------------- inputs
     def real(self, name, lo=None, hi=None, pos=False, nonneg=False):
@@ -494,7 +496,7 @@ class Ctx:
         meta = dict(meta)
         meta["decisions"] = list(self.decisions)
         meta["tol"] = tol
-        if isinstance(cond, B) and cond.atom is not None and self.div_rules:
+        if isinstance(cond, B) and cond.atom is not None and self.div_defs:
             cg = self._cleared_goal(*cond.atom)
             if cg is not None:
                 meta["clear_goal"] = cg
@@ -518,56 +520,74 @@ class Ctx:
         self.obligations.append(Obligation("cover:" + name, "cover", list(self.facts), z3.BoolVal(False), False,
                                            dict(decisions=list(self.decisions), tol=0.0)))
 
-    def _cleared_goal(self, p, op):
-        """denominator clearing: for quotient atoms q = a/b with b a single variable, multiply p by b^D and rewrite
-        b*q -> a.  Returns z3 goal  (b > 0 | b != 0)  and  p' op 0   which implies  p op 0  (p' = b^D * p by sound rewriting)."""
-        by_den = {}
-        for (b, q), (a, coef) in self.div_rules.items():
-            by_den.setdefault(b, []).append(q)
-        if not by_den:
+    def _cleared_goal(self, p, op, depth=0):
+        """denominator clearing (exact polynomial manipulation): for a quotient atom q with q*b = a, write the goal polynomial
+        as P(q) = sum_e c_e q^e (degree D); then b^D P = sum_e c_e a^e b^(D-e) contains no q.  Returns a z3 formula F with
+        F => (p op 0): F = (b != 0 and P' op 0) for even D or (dis)equalities, and the two sign cases of b for odd D."""
+        qs = [v for v in p.variables() if v in self.div_defs]
+        if not qs or depth > 6:
+            if depth == 0:
+                return None
+            z = poly_to_z3(p)
+            zero = z3.RealVal(0)
+            return {"<": z < zero, "<=": z <= zero, ">": z > zero, ">=": z >= zero, "==": z == zero, "!=": z != zero}[op]
+        q = max(qs)            # latest quotient first (its numerator/denominator may contain earlier ones)
+        a, b = self.div_defs[q]
+        # split by power of q
+        coeffs = {}
+        for m, c in p.d.items():
+            e = 0
+            rest = []
+            for v, ex in m:
+                if v == q:
+                    e = ex
+                else:
+                    rest.append((v, ex))
+            coeffs.setdefault(e, Poly()).d[tuple(rest)] = c
+        D = max(coeffs)
+        old = Poly.rules
+        Poly.rules = None          # plain polynomial arithmetic (no rewriting) for the exact identity
+        try:
+            apow = [Poly.const(1)]
+            bpow = [Poly.const(1)]
+            for _ in range(D):
+                apow.append(apow[-1] * a)
+                bpow.append(bpow[-1] * b)
+            tot = Poly()
+            for e, c in coeffs.items():
+                tot = tot + c * apow[e] * bpow[D - e]
+        finally:
+            Poly.rules = old
+        if len(tot.d) > 4000:
             return None
-        pv = p.variables()
-        conj = []
-        cur = p
-        touched = False
-        for b, qs in by_den.items():
-            qs = [q for q in qs if q in pv]
-            if not qs:
-                continue
-            D = 0
-            for m in cur.d:
-                D = max(D, sum(e for v, e in m if v in qs))
-            if D == 0:
-                continue
-            touched = True
-            rules = {}
-            for q in qs:
-                a, coef = self.div_rules[(b, q)]
-                rules[(min(b, q), max(b, q))] = a.scale(1 / coef)
-            mult = Poly.const(1)
+        if self.post_rules or Poly.rules:
             old = Poly.rules
-            Poly.rules = None
+            merged = dict(old or {})
+            merged.update(self.post_rules)
+            Poly.rules = merged
             try:
-                for _ in range(D):
-                    mult = mult * Poly.var(b)
-                prod = mult * cur
-                Poly.rules = rules
-                prod = prod.reduce()
+                tot = tot.reduce()
             finally:
                 Poly.rules = old
-            prod = prod.reduce()
-            cur = prod
-            bz3 = self.vt.z3[b]
-            if D % 2 == 1:
-                conj.append(bz3 > 0)
-            else:
-                conj.append(bz3 != 0)
-        if not touched:
-            return None
-        z = poly_to_z3(cur)
+        bz3 = poly_to_z3(b)
         zero = z3.RealVal(0)
-        conj.append({"<": z < zero, "<=": z <= zero, ">": z > zero, ">=": z >= zero, "==": z == zero, "!=": z != zero}[op])
-        return z3.And(*conj)
+        if tot.is_const():
+            c = tot.const_value()
+            inner = z3.BoolVal({"<": c < 0, "<=": c <= 0, ">": c > 0, ">=": c >= 0, "==": c == 0, "!=": c != 0}[op])
+            flipped = z3.BoolVal({"<": c > 0, "<=": c >= 0, ">": c < 0, ">=": c <= 0, "==": c == 0, "!=": c != 0}[op])
+        else:
+            inner = self._cleared_goal(tot, op, depth + 1)
+            flipped = None
+            if inner is None:
+                return None
+        if D % 2 == 0 or op in ("==", "!="):
+            return z3.And(bz3 != zero, inner)
+        if flipped is None:
+            flip = {"<": ">", "<=": ">=", ">": "<", ">=": "<=", "==": "==", "!=": "!="}[op]
+            flipped = self._cleared_goal(tot, flip, depth + 1)
+            if flipped is None:
+                return None
+        return z3.Or(z3.And(bz3 > zero, inner), z3.And(bz3 < zero, flipped))
 
     def lemma(self, name, cond, **meta):
         """auxiliary proof step: proved as its own obligation, then available as a fact"""
@@ -672,6 +692,7 @@ class Ctx:
         qb = q * b
         self.facts.append(("def:" + name, S.lift(qb).z() == a.z()))
         self._div_cache[key] = q
+        self.div_defs[self.vt.ids[name]] = (a.p, b.p)
         if len(b.p.d) == 1:
             (mono, coef), = b.p.d.items()
             if len(mono) == 1 and mono[0][1] == 1:
